@@ -123,6 +123,15 @@ func VerifC06(codec string, scheme string, ivLen int, sizes string, extraBox boo
 		// a vendor uuid box (tfxd) and an unknown box inside the traf
 		_ = frag.Moof.Traf.AddChild(&UUIDBox{uuid: uuidTfxd, Tfxd: &TfxdData{Version: 1, FragmentAbsoluteTime: 7, FragmentAbsoluteDuration: 9}})
 		_ = frag.Moof.Traf.AddChild(CreateUnknownBox("zzzz", 12, []byte{1, 2, 3, 4}))
+		// and boxes in the moof itself, one before and one after the traf
+		var ch []Box
+		for _, c := range frag.Moof.Children {
+			if c.Type() == "traf" {
+				ch = append(ch, CreateUnknownBox("zzzy", 13, []byte{9, 8, 7, 6, 5}))
+			}
+			ch = append(ch, c)
+		}
+		frag.Moof.Children = append(ch, CreateUnknownBox("zzzx", 11, []byte{5, 5, 5}))
 	}
 	err = EncryptFragment(frag, key, iv, ipd)
 	vfy.Assert(err == nil, "EncryptFragment succeeds")
@@ -380,6 +389,22 @@ func VerifC06(codec string, scheme string, ivLen int, sizes string, extraBox boo
 			}
 		}
 		vfy.Assert(nUUID == 1 && nUnk == 1, "vendor uuid box and unknown box still present")
+		nBefore, nAfter, seenTraf := 0, 0, false
+		for _, c := range fr.Moof.Children {
+			switch c.Type() {
+			case "traf":
+				seenTraf = true
+			case "zzzy":
+				if !seenTraf {
+					nBefore++
+				}
+			case "zzzx":
+				if seenTraf {
+					nAfter++
+				}
+			}
+		}
+		vfy.Assert(nBefore == 1 && nAfter == 1, "unknown boxes before and after the traf still present in the moof")
 	}
 	vfy.Cover("crypto done")
 }
